@@ -20,6 +20,7 @@ import TboxModel.C12.ProofsUrl
 import TboxModel.C12.ProofsServer
 import TboxModel.C12.ProofsUrlAbs
 import TboxModel.C12.ProofsReq
+import TboxModel.C12.ProofsUrlHost
 namespace Tbox.C12
 
 /-! ## A. parser and feed loop -/
@@ -334,14 +335,16 @@ theorem C12_peer_stream (ops : List PipeOp) (hok : traceOk {} ops = true) :
   ⟨List.take_prefix _ _, (C12_in_order_once ops hok).1⟩
 
 /-- C12_close_after_full_delivery: in every admissible history without a peer-initiated close or
-parse failure, a connection that is gone (dropped by the server after the closing response) has
-delivered every byte handed to `send` — the closing response reaches the peer completely before
-the connection is dropped, also when it needed many partial writes. (Send-complete being
-reported only after the send buffer drained is the assumed send-side contract, part of `traceOk`.) -/
+parse failure and without a failed write, a connection that is gone (dropped by the server after the
+closing response) has delivered every byte handed to `send` — the closing response reaches the peer
+completely before the connection is dropped, also when it needed many partial writes. (Send-complete being
+reported only after the send buffer drained is the assumed send-side contract, part of `traceOk`; after a
+failed write BufferedFd drops data and the clause does not apply — `C12_write_error` covers that case.) -/
 theorem C12_close_after_full_delivery (ops : List PipeOp) (hok : traceOk {} ops = true)
-    (hnd : PipeOp.drop ∉ ops) (hnh : PipeOp.halfClose ∉ ops) (hgone : (Pipe.run {} ops).valid = false) :
+    (hnd : PipeOp.drop ∉ ops) (hnh : PipeOp.halfClose ∉ ops) (hgone : (Pipe.run {} ops).valid = false)
+    (hnw : (Pipe.run {} ops).wbroken = false) :
     (Pipe.run {} ops).peerBytes = ((Pipe.run {} ops).written.map (·.2)).flatten := by
-  have := run_noLoss {} ops (by intro h; simp at h) hok hnd hnh hgone
+  have := run_noLoss {} ops (by intro h; simp at h) hok hnd hnh hgone hnw
   unfold Pipe.peerBytes
   rw [this]
   exact List.take_length
@@ -350,7 +353,7 @@ theorem C12_close_after_full_delivery (ops : List PipeOp) (hok : traceOk {} ops 
 example :
     let ops := [PipeOp.req true, .commit 0 [1, 2, 3, 4, 5], .kernel 2, .kernel 1, .kernel 9, .sendComplete]
     traceOk {} ops = true ∧ PipeOp.drop ∉ ops ∧ PipeOp.halfClose ∉ ops ∧ (Pipe.run {} ops).valid = false ∧
-    (Pipe.run {} (ops.take 3)).peerBytes = [1, 2] ∧ (Pipe.run {} ops).peerBytes = [1, 2, 3, 4, 5] := by
+    (Pipe.run {} ops).wbroken = false ∧ (Pipe.run {} (ops.take 3)).peerBytes = [1, 2] ∧ (Pipe.run {} ops).peerBytes = [1, 2, 3, 4, 5] := by
   decide +kernel
 
 /-- a send-complete while bytes are still buffered is not admissible (contract) -/
@@ -367,8 +370,13 @@ theorem C12_write_error (ops more : List PipeOp) (hb : (Pipe.run {} ops).wbroken
 -- OPEN (false of the code as it is — C12_half_close_counterexample): "after the peer shut down only
 --   its sending side, the responses of the requests already handed to handlers are still written, in
 --   order, and the connection is closed after the last of them."
--- TcpConnection treats read()==0 as "connection closed" and tears the connection down (proposed
--- known_findings line in the report; a repair needs a half-close notion in network/TcpConnection).
+-- TcpConnection::onSocketClosed (network/) treats read()==0 as "connection closed": it disables and releases its BufferedFd
+-- BEFORE the disconnected callback reaches TcpServer and the http server, so nothing inside http/server can keep the
+-- connection writable (re-examined in round 7: `TcpConnection::send` already returns false when Server::Impl hears of it).
+-- A repair needs a half-close notion in TcpConnection (keep the write side), TcpServer (forward it) and Server::Impl
+-- ("no more requests; close after the last outstanding response"): three classes in two modules, a new API — recorded
+-- in known_findings.txt (fp=srv-halfclose-responses-lost), not repaired. The check runs every half-close history as coded
+-- (`chalf`, fully tied) and the first few also as the property asks (`chalfS`).
 -/
 
 /-- as coded, a peer that only half-closes (it still reads) loses every outstanding response -/
@@ -428,12 +436,19 @@ unwinds) unless a handler kept the context, and then none: one Context, one resp
 theorem C12_handler_commits_once (s : Server) (last : Bool) :
     (((s.handleReq last).1.hist.drop s.hist.length).countP PipeOp.isCommit)
       = if (s.handleReq last).2.kept then 0 else 1 := by
-  simp only [Server.handleReq, Server.emit]
+  have hw : ∀ w w' : WSt, (wOps w w').countP PipeOp.isCommit = 0 := by
+    intro w w'
+    simp only [wOps, List.countP_cons, PipeOp.isCommit]
+    split <;> simp [PipeOp.isCommit]
+  have hd : ∀ b : Bool, (if b then [PipeOp.drop] else []).countP PipeOp.isCommit = 0 := by
+    intro b; cases b <;> simp [PipeOp.isCommit]
+  simp only [Server.handleReq]
   split <;> rename_i hk
-  · simp only [hk, if_true, List.drop_left' rfl, List.append_nil, List.countP_cons, PipeOp.isCommit]
-    split <;> simp [PipeOp.isCommit]
-  · simp only [hk, List.drop_left' rfl, commitOps, List.countP_cons, List.countP_append, PipeOp.isCommit]
-    split <;> simp [PipeOp.isCommit]
+  · simp only [hk, if_true, Server.emit, List.drop_left' rfl, List.countP_cons, PipeOp.isCommit, hd]
+    simp
+  · simp only [hk, Server.commitW, Server.emit, List.append_assoc, List.drop_left' rfl, List.countP_cons,
+      List.countP_append, PipeOp.isCommit, hd, hw]
+    simp
 
 /-- C12_scripted_admissible: for EVERY sequence of things that can happen to a connection —
 segments of any bytes, handler scripts of any shape for any request (respond at once, `next()`
@@ -459,6 +474,37 @@ theorem C12_scripted_pipelining (ops : List SrvOp) :
   rw [h1]
   exact ⟨(C12_in_order_once _ h2).1, C12_written_once _ h2, fun k hk => (C12_nothing_after_close _ h2 k hk).1,
     (C12_single_disconnect _ []).1, C12_no_response_stuck _ h2⟩
+
+/-- C12_scripted_peer_stream (fault schedules): for EVERY sequence of events on a connection, including EVERY sequence
+of answers the kernel gives to the server's `write()` calls (`SrvOp.wq`: accepted, short count, EAGAIN, EPIPE — at any
+call index, in the middle of a batch of pipelined responses, in any combination) and read errors (`SrvOp.rerr`), what
+the peer has received is a prefix of the in-order responses, each response index is handed to the socket at most once,
+and the connection object is torn down at most once. -/
+theorem C12_scripted_peer_stream (ops : List SrvOp) :
+    let p := (ops.foldl Server.step {}).pipe
+    p.peerBytes <+: (p.written.map (·.2)).flatten ∧ InOrderOnce p.written p.resIndex ∧ p.disconnects ≤ 1 := by
+  obtain ⟨h1, h2⟩ := C12_scripted_admissible ops
+  simp only
+  rw [h1]
+  exact ⟨(C12_peer_stream _ h2).1, (C12_peer_stream _ h2).2, (C12_single_disconnect _ []).1⟩
+
+/-- non-vacuity / as coded: three pipelined requests (the last one closing) answered in the order 2, 1, 0; the commit of 0
+releases the batch 0,1,2; the kernel accepts the first write and answers EPIPE to the second: response 0 reaches the
+peer, 1 and 2 are dropped by BufferedFd, the still-enabled write event finds an empty buffer, reports send-complete and
+the server closes the connection as after a complete delivery. -/
+example : tablesStd = true →
+    let three := ascii "GET /0 HTTP/1.1\r\nContent-Length: 0\r\n\r\nGET /1 HTTP/1.1\r\nContent-Length: 0\r\n\r\nGET /2 HTTP/1.1\r\nConnection: close\r\nContent-Length: 0\r\n\r\n"
+    let s := [SrvOp.seg three, .done 2 { status := 200, body := [50] }, .done 1 { status := 200, body := [49] },
+              .wq [.pass, .epipe], .done 0 { status := 200, body := [48] }].foldl Server.step {}
+    s.pipe.written.map (·.1) = [0, 1, 2] ∧ s.pipe.peerBytes = respond [48] ∧ s.pipe.wbroken = true ∧ s.pipe.valid = false := by
+  decide +kernel
+
+/-- short count, then EAGAIN, then the rest: everything is delivered, in order -/
+example : tablesStd = true →
+    let one := ascii "GET /0 HTTP/1.1\r\nContent-Length: 0\r\n\r\n"
+    let s := [SrvOp.seg one, .wq [.short 5, .again, .short 1], .done 0 { status := 200, body := [48] }].foldl Server.step {}
+    s.pipe.peerBytes = respond [48] ∧ s.pipe.wbroken = false ∧ s.wq = [] := by
+  decide +kernel
 
 /-- non-vacuity: handlers that call next() twice, keep the context, stop the server -/
 example : tablesStd = true →
@@ -539,15 +585,107 @@ port reduced modulo 65536 (std::stoi → uint16_t, as coded) -/
 example : stringToUrl (ascii "http://%zz/p") = .fail ∧ stringToUrl (ascii "h:/p") = .fail ∧
     stringToUrl (ascii "x://h:65616/") = .ok ⟨ascii "x", ⟨[], [], ascii "h", 80⟩, ⟨ascii "/", [], [], []⟩⟩ := by decide +kernel
 
-/-
--- OPEN: `StringToUrlHost (UrlHostToString h) = h` for `UrlHost.wf` values and `StringToUrl (UrlToString u) = u` for
--- `Url.wf` values (absolute URLs; Url.lean states the predicates: user / password / host are printed UNENCODED, so they
--- must not contain `% @ : /`, a password needs a user, the scheme is non-empty without ':'). Not proved in Lean; the tie
--- evaluates both sides of these equations on every run (`rt=` field of ops `url` / `mkurl`, 256 byte values per position)
--- and the model agrees with the code on all of them, including the values outside the predicates, e.g.
--- user "u", password "//x" prints "u://x@h/" which reads back as scheme "u" (rt=0 on both sides).
--- These four functions are called from nowhere in the library except their unit tests; they are not on any path of the HTTP server.
--/
+/-- C12_url_host_roundtrip (closes the former OPEN): `StringToUrlHost (UrlHostToString h) = h` for EVERY host value that
+is well-formed (`UrlHost.wf`, decidable): user / password / host are printed UNENCODED, so they contain none of
+`% @ : /`; a password needs a user; the port fits `uint16_t`. -/
+theorem C12_url_host_roundtrip (h : UrlHost) (hw : h.wf = true) : stringToUrlHost (urlHostToString h) = some h :=
+  urlHost_roundtrip h hw
+
+/-- C12_url_abs_roundtrip: `StringToUrl (UrlToString u) = u` for EVERY well-formed absolute URL (`Url.wf`): non-empty
+scheme without ':', well-formed host part, well-formed path part (arbitrary-byte keys / values, see
+C12_url_path_roundtrip). -/
+theorem C12_url_abs_roundtrip (u : Url) (hw : u.wf = true) : stringToUrl (urlToString u) = .ok u :=
+  url_roundtrip u hw
+
+/-- non-vacuity: scheme, user:password, host, port, path with a space, parameter, query with delimiters, fragment -/
+example : (Url.mk (ascii "https") ⟨ascii "user", ascii "p w", ascii "example.com", 8443⟩
+    ⟨ascii "/a b", [(ascii "k", ascii ";")], [(ascii "&=", ascii "?"), (ascii "q", [0, 255])], ascii "frag"⟩).wf = true := by decide
+
+/-- each clause of `UrlHost.wf` is needed — (1) a user with '@': "a@b@h" reads back as user "a", host "b@h" -/
+theorem C12_url_host_roundtrip_counterexample_user :
+    stringToUrlHost (urlHostToString ⟨ascii "a@b", [], ascii "h", 0⟩) = some ⟨ascii "a", [], ascii "b@h", 0⟩ := by decide +kernel
+
+/-- (2) a password with '@': "u:p@q@h" reads back as password "p", host "q@h" -/
+theorem C12_url_host_roundtrip_counterexample_password :
+    stringToUrlHost (urlHostToString ⟨ascii "u", ascii "p@q", ascii "h", 0⟩) = some ⟨ascii "u", ascii "p", ascii "q@h", 0⟩ := by
+  decide +kernel
+
+/-- (3) a host with ':': what follows is taken for the port and `std::stoi` refuses it -/
+theorem C12_url_host_roundtrip_counterexample_host :
+    stringToUrlHost (urlHostToString ⟨[], [], ascii "h:x", 0⟩) = none := by decide +kernel
+
+/-- (4) a password without a user is not printed at all -/
+theorem C12_url_host_roundtrip_counterexample_pw_without_user :
+    stringToUrlHost (urlHostToString ⟨[], ascii "p", ascii "h", 0⟩) = some ⟨[], [], ascii "h", 0⟩ := by decide +kernel
+
+/-- (5) '%' is not encoded when printed but decoded when read: user "%41" comes back as "A" -/
+theorem C12_url_host_roundtrip_counterexample_percent :
+    stringToUrlHost (urlHostToString ⟨ascii "%41", [], ascii "h", 0⟩) = some ⟨ascii "A", [], ascii "h", 0⟩ := by decide +kernel
+
+/-- (6) a port outside `uint16_t` (reachable only through the text form): `std::stoi` accepts it as an `int`, the
+assignment to `uint16_t` reduces it modulo 65536 (url.cpp:218) -/
+theorem C12_url_host_roundtrip_counterexample_port :
+    stringToUrlHost (urlHostToString ⟨[], [], ascii "h", 65616⟩) = some ⟨[], [], ascii "h", 80⟩ := by decide +kernel
+
+/-- each clause of `Url.wf` is needed — (7) a scheme containing "://": the first "://" ends the scheme, the port is empty -/
+theorem C12_url_abs_roundtrip_counterexample_scheme :
+    stringToUrl (urlToString ⟨ascii "a://b", ⟨[], [], ascii "h", 0⟩, ⟨ascii "/", [], [], []⟩⟩) = .fail := by decide +kernel
+
+/-- (8) an empty scheme: no "://" is printed, and one inside the (unencoded) fragment is taken for the scheme delimiter -/
+theorem C12_url_abs_roundtrip_counterexample_noscheme :
+    stringToUrl (urlToString ⟨[], ⟨[], [], ascii "h", 0⟩, ⟨ascii "/p", [], [], ascii "://"⟩⟩)
+      = .ok ⟨ascii "h/p#", ⟨[], [], [], 0⟩, ⟨ascii "/", [], [], []⟩⟩ := by decide +kernel
+
+/-! ### C++ integer widths (tools/narrowing/C12.txt) -/
+
+/-- the value `std::stoi` hands to `uint16_t port` (url.cpp:218) is the mathematical one exactly for 0 ≤ p < 65536;
+for EVERY `int` the stored port is below 65536 (the conversion is modular, never undefined) -/
+theorem C12_port_width (p : Int) :
+    toU16 p < 65536 ∧ ((0 ≤ p ∧ p < 65536) → toU16 p = p.toNat) ∧ ((p < 0 ∨ 65536 ≤ p) → (toU16 p : Int) ≠ p) := by
+  unfold toU16
+  refine ⟨by omega, fun h => by omega, fun h => by omega⟩
+
+/-- outside the range, as coded: 65536 → 0, -1 → 65535, INT_MAX → 65535, INT_MIN → 0; beyond `int`, `std::stoi` throws
+and the function returns false -/
+theorem C12_port_width_counterexample :
+    stringToUrlHost (ascii "h:65536") = some ⟨[], [], ascii "h", 0⟩ ∧ stringToUrlHost (ascii "h:-1") = some ⟨[], [], ascii "h", 65535⟩ ∧
+    stringToUrlHost (ascii "h:2147483647") = some ⟨[], [], ascii "h", 65535⟩ ∧
+    stringToUrlHost (ascii "h:-2147483648") = some ⟨[], [], ascii "h", 0⟩ ∧
+    stringToUrlHost (ascii "h:2147483648") = none ∧ stringToUrlHost (ascii "h:-2147483649") = none := by decide +kernel
+
+/-- C12_content_length_width: `ParseContentLength` on EVERY byte string: accepted exactly when it is a non-empty string of
+decimal digits whose value is at most SIZE_MAX-1 (= 2^64-2; SIZE_MAX is the "no Content-Length" marker), and then
+`content_length_` is the mathematical value — whatever the number of leading zeros, also beyond 2^31 / 2^32 / 2^63; a sign,
+a space or tab, a hex prefix, trailing junk and every value from 2^64-1 on are refused (the parser goes to `kFail`). -/
+theorem C12_content_length_width (v : Bytes) :
+    parseLenChecked v =
+      if !v.isEmpty && allDigits v && decide (valFrom 0 v ≤ 2 ^ 64 - 2) then some (valFrom 0 v) else none := by
+  rw [parseLenChecked_eq]
+  cases hv : v.isEmpty with
+  | true => simp
+  | false => simp only [Bool.false_eq_true, if_false, Bool.not_false, Bool.true_and]; exact foldl_lenStep v 0 (by omega)
+
+/-- both sides of every boundary -/
+example : parseLenChecked (ascii "2147483647") = some (2 ^ 31 - 1) ∧ parseLenChecked (ascii "2147483648") = some (2 ^ 31) ∧
+    parseLenChecked (ascii "4294967296") = some (2 ^ 32) ∧ parseLenChecked (ascii "9223372036854775808") = some (2 ^ 63) ∧
+    parseLenChecked (ascii "18446744073709551614") = some (2 ^ 64 - 2) ∧ parseLenChecked (ascii "18446744073709551615") = none ∧
+    parseLenChecked (ascii "18446744073709551616") = none ∧ parseLenChecked (ascii "+5") = none ∧ parseLenChecked (ascii "-1") = none ∧
+    parseLenChecked (ascii "0x10") = none ∧ parseLenChecked (ascii "\t3") = none ∧ parseLenChecked (ascii "0000000000000000000000003") = some 3 := by
+  decide +kernel
+
+/-- C12_declared_length_waits: with ANY declared length `n` larger than what is buffered (2^31, 2^63, 2^64-2 …: no
+narrowing, no wrap in `data_size - pos >= content_length_`) the body stage consumes nothing, stays in `kFinishedHeads`
+and hands out no request; the bytes stay in the receive buffer until the peer gives up. -/
+theorem C12_declared_length_waits (req : Req) (n : Nat) (s : Bytes) (h : s.length < n) :
+    parse Cfg.fixed ⟨.heads, req, some n⟩ s = .ok ⟨.heads, req, some n⟩ s := by
+  have : ¬ n ≤ s.length := by omega
+  simp [parse, bodyStage, this]
+
+/-- a declared length of 2^63 with a 3-byte body: no request, nothing thrown, 3 bytes pending -/
+example : tablesStd = true →
+    let o := recv Cfg.fixed isLast {} (ascii "PUT /l HTTP/1.1\r\nContent-Length: 9223372036854775808\r\n\r\nabc")
+    reqsOf o.evs = [] ∧ o.status = .ok ∧ o.conn.ps.st = .heads ∧ o.conn.ps.clen = some (2 ^ 63) ∧ o.conn.buf = ascii "abc" ∧ o.conn.dead = false := by
+  decide +kernel
 
 /-! ### what the handler receives / what `Request::toString` prints -/
 
